@@ -21,6 +21,10 @@ func sp_exist(d *Bloomfilter, h uint64) bool {
 	return all(func(j uint32) bool { return imp(j < d.K, sp_bit(d.Filter, op_pos(h, j, d.M))) })
 }
 
+// exported for the contracts of package internal
+func Sp_wfBF(d *Bloomfilter) bool { return sp_wfBF(d) }
+func Sp_exist(d *Bloomfilter, h uint64) bool { return sp_exist(d, h) }
+
 func spec_nextPowerOfTwo(i uint32) (n uint32) {
 	ensures("pow2", imp(i >= 1 && i <= 1<<31, sp_pow2_32(n) && n >= i))
 	ensures("zero", imp(i == 0 || i > 1<<31, n == 0))
@@ -50,11 +54,14 @@ func (b bitvector) spec_getset(bit uint32) (r uint) {
 }
 
 func (d *Bloomfilter) spec_EnsureCapacity(capacity int) {
+	flag("holds_shard")
 	requires("wf_or_new", d.Capacity == 0 || sp_wfBF(d))
 	ensures("wf", imp(capacity > 0 || old(d.Capacity) > 0, sp_wfBF(d)))
+	ensures("wf_kept", imp(old(sp_wfBF(d)), sp_wfBF(d)))
 }
 
 func (d *Bloomfilter) spec_Insert(h uint64) (present bool) {
+	flag("holds_shard")
 	reveal("op_pos")
 	requires("wf", sp_wfBF(d))
 	ensures("wf", sp_wfBF(d) && d.Capacity == old(d.Capacity))
@@ -81,6 +88,7 @@ func (d *Bloomfilter) spec_Insert_loop1(i uint32, o uint, h1, h2 uint32, h uint6
 }
 
 func (d *Bloomfilter) spec_Exist(h uint64) (present bool) {
+	flag("holds_shardR")
 	reveal("op_pos")
 	requires("wf", sp_wfBF(d))
 	ensures("def", present == sp_exist(d, h))
@@ -97,6 +105,7 @@ func (d *Bloomfilter) spec_Exist_loop1(i uint32, o uint, h1, h2 uint32, h uint64
 }
 
 func (d *Bloomfilter) spec_Reset() {
+	flag("holds_shard")
 	requires("wf", sp_wfBF(d))
 	ensures("wf", sp_wfBF(d) && d.Capacity == old(d.Capacity))
 	ensures("cleared", all(func(w uint) bool { return imp(w < uint(len(d.Filter)), d.Filter[w] == 0) }))
